@@ -183,3 +183,12 @@ Print Assumptions C05_normalize_refuses_duplicate.
 Theorem C05_normalize_refuses_non_string : forall pre post l, normalize (pre ++ None :: post) <> inl l.
 Proof. exact normalize_refuses_nonstr. Qed.
 Print Assumptions C05_normalize_refuses_non_string.
+
+(* the pieces fit: once every named value is a value of its own (C05_resolve_distinct for the inputs,
+   C05_alias_outputs_own_values for the outputs), the "conflicting names for one value" refusal cannot occur --
+   a list of user names is refused only for the two reasons the user can see (a repeated name, a name already
+   used by a value that keeps its name) *)
+Theorem C05_names_no_conflict_after_aliasing : forall vals pairs,
+  NoDup (map fst pairs) -> apply_names vals pairs <> inr Conflict.
+Proof. exact apply_no_conflict. Qed.
+Print Assumptions C05_names_no_conflict_after_aliasing.
